@@ -712,6 +712,8 @@ class MinMaxAggregator:
         new list of elements
         """
         term_tuple = elem.terms
+        if not term_tuple:  # an element with an empty tuple has no weight to replace
+            return [elem]
         # split condition into the max predicate + translation and the rest
         old_max, minmaxpred, rest_cond = self._split_element(term_tuple[0].location, elem, rest_elems)
         if minmaxpred is None:
